@@ -187,6 +187,7 @@ fn stream_strategy(max_len: usize) -> impl Strategy<Value = StreamCase> {
 }
 
 pub fn run(ctx: &Ctx, rep: &mut Report) {
+    rep.journal_cases = true;
     rep.trust("independent wire encoder (2432-byte frames, contiguous type-31 layouts) and the C02/C10/C11/C12 comparators");
     rep.assume("type-31 messages are laid out contiguously in pointer order and carry finite floats (PartialEq reflexive), as the statement restricts");
     rep.assume("the Record::messages path is skipped when the generated bytes 4..6 spell 'BZ' (such a record is by definition compressed)");
